@@ -340,7 +340,7 @@ def exact_cog_part(R: Run, mods):
     rng = R.rng
     anchors = ["default", "default", "edge", "edge", "center", "floating", (0.25, 0.75), (0.25, 0.25)]
     srcs = []
-    for _ in range(R.pick(120, 900)):
+    for _ in range(R.pick(104, 900)):
         crs = rng.choice(["EPSG:32633", "EPSG:3857", "EPSG:4326", "EPSG:3577", "EPSG:6933", "ESRI:54009", "OGC:CRS84"])
         ny, nx = rng.randint(1, 60), rng.randint(1, 60)
         if crs in ("EPSG:4326", "OGC:CRS84"):
@@ -662,7 +662,7 @@ def float_part(R: Run, mods):
     Affine, GeoBox, ov, M, CRS, norm_crs, _pick, resxy_, xy_, AnchorEnum = mods
     rng = R.rng
     anchors = ["default", "default", "default", "edge", "center", "floating", (0.3, 0.6), (0.3, 0.3)]
-    for it in range(R.pick(110, 600)):
+    for it in range(R.pick(96, 600)):
         aus = rng.random() < 0.2
         if aus:
             lon, lat = rng.uniform(118, 148), rng.uniform(-38, -15)
